@@ -18,6 +18,7 @@ mod build_checks;
 mod c16;
 mod c11;
 mod c12;
+mod c10;
 
 use rayon::prelude::*;
 
@@ -64,6 +65,7 @@ fn check(id: &str, tier: &str, seed: u64) -> i32 {
         "C09" => "C09",
         "C13" => "C13",
         "C11" => "C11",
+        "C10" => "C10",
         "C12" => "C12",
         "C16" => "C16",
         "C19" => "C19",
@@ -113,6 +115,7 @@ fn check(id: &str, tier: &str, seed: u64) -> i32 {
         "C13" => build_checks::run_c13(tier, seed),
         "C16" => c16::run_c16(tier, seed),
         "C11" => c11::run_c11(tier, seed),
+        "C10" => c10::run_c10(tier, seed),
         "C12" => c12::run_c12(tier, seed),
         "C19" => build_checks::run_c19(tier, seed),
         "C20" => build_checks::run_c20(tier, seed),
@@ -138,6 +141,10 @@ fn replay_file(path: &std::path::Path) -> Result<Option<String>, String> {
         Some("c09") | Some("c13") | Some("c19") | Some("c20") => {
             let rep: build_checks::ProgReplay = serde_json::from_value(v).map_err(|e| e.to_string())?;
             build_checks::replay_prog(&rep)
+        }
+        Some("c10") => {
+            let rep: build_checks::ProgReplay = serde_json::from_value(v).map_err(|e| e.to_string())?;
+            c10::replay_c10(&rep)
         }
         Some("c12") => {
             let rep: build_checks::ProgReplay = serde_json::from_value(v).map_err(|e| e.to_string())?;
